@@ -394,6 +394,7 @@ class Check:
                 ],
             }
             violations.append(("unproved", "proof obligation or correspondence no longer checks", detail, True))
+        violations = self._confirm_replays(violations)
         lines = []
         for key in sorted(confirmed_known):
             lines.append(f"KNOWN-FINDING: property={self.prop} {key}: {known_keys[key]['what']}")
@@ -419,6 +420,45 @@ class Check:
             print(l)
         sys.stdout.flush()
         return 1 if nviol else 0
+
+    def _confirm_replays(self, violations):
+        """A violation the in-process oracle saw is reported with a replay that must fail in a FRESH process.
+        When the single-call replay passes there (the failure needs state left by earlier calls: a process-wide
+        cache, a memo, a flag), the same snippet evaluated several times in one process is tried — enough for
+        state the call itself leaves behind; harnesses with longer histories build their own (C12, C13, C17).
+        Bounded: the first 8 distinct keys, 120 s each; never turns a violation into a pass."""
+        out = []
+        seen = set()
+        tried = 0
+        for key, what, replay, nofail in violations:
+            if nofail or key in seen or not isinstance(replay, dict) or not replay.get("python") or tried >= 8:
+                seen.add(key)
+                out.append((key, what, replay, nofail))
+                continue
+            seen.add(key)
+            tried += 1
+            code = replay["python"]
+
+            def fails(src):
+                try:
+                    p = subprocess.run([PY, "-W", "ignore", "-c", src], cwd=REPO, capture_output=True, text=True, timeout=120,
+                                       env=dict(os.environ, PYTHONPATH=REPO))
+                    return p.returncode != 0
+                except Exception:  # noqa: BLE001
+                    return True
+            if not fails(code):
+                rep = ("_SRC = " + repr(code) + "\nfor _i in range(3):\n    try:\n        exec(compile(_SRC, '<replay>', 'exec'), {'__name__': '__replay__'})\n"
+                       "    except SystemExit as _e:\n        if _e.code not in (0, None):\n            raise\n")
+                if fails(rep):
+                    replay = dict(replay, python=rep,
+                                  history_dependent="the single evaluation passes in a fresh process; the failure appears when the same snippet is evaluated again in the same process")
+                    what = what + " [from the second evaluation in one process on]"
+                    self.count("replay:needs-repetition")
+                else:
+                    replay = dict(replay, replay_note="seen by the in-process oracle after the earlier calls of this run; this single-call replay passes in a fresh process")
+                    self.count("replay:not-reproduced-in-fresh-process")
+            out.append((key, what, replay, nofail))
+        return out
 
     def write_evidence(self, rule, explanation, nviol, known_confirmed):
         os.makedirs(EVID, exist_ok=True)
